@@ -224,30 +224,74 @@ func c12A3(r *Run) {
 	if ef == nil {
 		r.Unk("C12.A3", "kmip.ResponseBatchItem.Err", token.NoPos, "anchor missing")
 	} else {
-		okGuard := false
 		fields := map[string]bool{}
 		allInstrs(ef, func(in ssa.Instruction) {
-			switch x := in.(type) {
-			case *ssa.Return:
-				if c, ok := x.Results[0].(*ssa.Call); ok && callID(&c.Call).is("fmt", "", "Errorf") {
-					for _, dc := range dominatingConds(x.Block()) {
-						if bo, ok := dc.cond.(*ssa.BinOp); ok && bo.Op == token.NEQ && dc.outcome {
-							if u, ok := bo.X.(*ssa.UnOp); ok {
-								if _, fld, ok := fieldAddrOf(u.X); ok && fname(fld) == "ResultStatus" {
-									if k, ok := constIntVal(bo.Y); ok && k == 0 {
-										okGuard = true
-									}
-								}
-							}
-						}
-					}
-				}
-			case *ssa.FieldAddr:
+			if x, ok := in.(*ssa.FieldAddr); ok {
 				if st := derefStruct(x.X.Type()); st != nil {
 					fields[fname(st.Field(x.Field))] = true
 				}
 			}
 		})
+		// path-wise: nil is returned exactly on the paths that took the `ResultStatus == Success` edge
+		isStatus := func(v ssa.Value) bool {
+			u, ok := unspill(v).(*ssa.UnOp)
+			if !ok {
+				return false
+			}
+			_, fld, ok := fieldAddrOf(u.X)
+			return ok && fname(fld) == "ResultStatus"
+		}
+		okGuard := true
+		paths, okP := enumeratePaths(ef, 256)
+		if !okP || len(paths) == 0 {
+			okGuard = false
+		}
+		for _, path := range paths {
+			success, inf := false, false
+			for i := range path {
+				cond, isTrue, ok, infeasible := edgeOnPath(path, i)
+				if infeasible {
+					inf = true
+				}
+				if !ok {
+					continue
+				}
+				bo, isB := cond.(*ssa.BinOp)
+				if !isB {
+					continue
+				}
+				x, y := bo.X, bo.Y
+				if _, isK := constIntVal(x); isK {
+					x, y = y, x
+				}
+				if k, isK := constIntVal(y); isK && k == 0 && isStatus(x) && ((bo.Op == token.EQL) == isTrue) && (bo.Op == token.EQL || bo.Op == token.NEQ) {
+					success = true
+				}
+			}
+			if inf {
+				continue
+			}
+			last := path[len(path)-1]
+			ret := last.Instrs[len(last.Instrs)-1].(*ssa.Return)
+			v := ret.Results[0]
+			if ph, ok := v.(*ssa.Phi); ok && ph.Block() == last && len(path) > 1 {
+				if pi := predIndex(last, path[len(path)-2]); pi >= 0 {
+					v = ph.Edges[pi]
+				}
+			}
+			retNil := isNilConst(v)
+			nonNil := false
+			switch x := v.(type) {
+			case *ssa.Call:
+				id := callID(&x.Call)
+				nonNil = id.is("fmt", "", "Errorf") || id.is("errors", "", "New")
+			case *ssa.MakeInterface:
+				nonNil = true
+			}
+			if success != retNil || (!success && !nonNil) {
+				okGuard = false
+			}
+		}
 		if okGuard && fields["ResultStatus"] && fields["ResultReason"] && fields["ResultMessage"] {
 			r.OK("C12.A3", "kmip.ResponseBatchItem.Err", ef.Pos(), "non-nil exactly when ResultStatus != Success; the error text is built from status, reason and message")
 		} else {
@@ -544,20 +588,73 @@ func runC13(r *Run, verifDir string) {
 			r.OK("C13.N1", key, st.Pos(), "stored version originates from %d candidate(s), each a member of c.supportedVersions", len(origins))
 		}
 	}
-	// N2: max idiom
+	// N2: max idiom — the comparison that lets a candidate replace the current best says "candidate is greater":
+	// CompareVersions(candidate, best) > 0 (>= 0), or with the operands swapped CompareVersions(best, candidate) < 0 (<= 0);
+	// the candidate is the element of the list being scanned, the best the loop-carried pointer
+	minIdiom := false
 	allInstrs(nv, func(in ssa.Instruction) {
 		bo, ok := in.(*ssa.BinOp)
-		if !ok || bo.Op != token.GTR {
+		if !ok {
 			return
 		}
-		if c, ok := bo.X.(*ssa.Call); ok {
-			if f := c.Call.StaticCallee(); f != nil && f.Origin() != nil && f.Origin().Name() == "CompareVersions" {
-				if k, ok := constIntVal(bo.Y); ok && k == 0 {
-					maxIdiom = true
-				}
+		x, y, op := bo.X, bo.Y, bo.Op
+		if _, isK := constIntVal(x); isK {
+			x, y = y, x
+			switch op {
+			case token.LSS:
+				op = token.GTR
+			case token.LEQ:
+				op = token.GEQ
+			case token.GTR:
+				op = token.LSS
+			case token.GEQ:
+				op = token.LEQ
 			}
 		}
+		c, ok := x.(*ssa.Call)
+		if !ok {
+			return
+		}
+		f := c.Call.StaticCallee()
+		if f == nil || f.Origin() == nil || f.Origin().Name() != "CompareVersions" || len(c.Call.Args) != 2 {
+			return
+		}
+		if k, ok := constIntVal(y); !ok || k != 0 {
+			return
+		}
+		role := func(v ssa.Value) string {
+			if mi, ok := v.(*ssa.MakeInterface); ok {
+				v = mi.X
+			}
+			ld, ok := v.(*ssa.UnOp)
+			if !ok || ld.Op != token.MUL {
+				return ""
+			}
+			switch ld.X.(type) {
+			case *ssa.Phi:
+				return "best"
+			case *ssa.IndexAddr, *ssa.Alloc:
+				return "cand"
+			}
+			return ""
+		}
+		a, b := role(c.Call.Args[0]), role(c.Call.Args[1])
+		greater := op == token.GTR || op == token.GEQ
+		smaller := op == token.LSS || op == token.LEQ
+		switch {
+		case a == "cand" && b == "best" && greater, a == "best" && b == "cand" && smaller:
+			maxIdiom = true
+		case a == "cand" && b == "best" && smaller, a == "best" && b == "cand" && greater:
+			minIdiom = true
+		case op == token.GTR && (a == "" || b == ""):
+			maxIdiom = true // roles not recognised: the reference spelling
+		}
 	})
+	if minIdiom {
+		maxIdiom = false
+		r.Bad("C13.N2", "kmipclient.Client.negotiateVersion/selection", nv.Pos(), "a candidate replaces the current best when it is SMALLER (the comparison of candidate and best has the wrong direction): the lowest common version is adopted instead of the highest")
+		positional = false
+	}
 	// idiom B: scan the client's own list from index 0 and adopt the first entry the server lists
 	scanOwn := false
 	for _, st := range stores {
@@ -568,6 +665,7 @@ func runC13(r *Run, verifDir string) {
 		}
 	}
 	switch {
+	case minIdiom:
 	case positional:
 		r.Bad("C13.N2", "kmipclient.Client.negotiateVersion/selection", nv.Pos(), "the adopted version is picked from the server's list by a fixed position: for an unordered or foreign list no fixed position is the highest common version")
 	case maxIdiom:
